@@ -216,6 +216,7 @@ PROPS = {
     },
     "C01": {
         "modules": ["contracts.c01_transfer", "contracts.worker_units", "contracts.c15_throttle", "contracts.server_units"],
+        "extra": ["contracts.index.c18_rt"],
         "unit_filter": ["AsyncStreamIterator.__anext__", "retr_worker@retr", "stor_worker@stor", "stor_worker@appe", "ThrottleStreamIO.read", "ThrottleStreamIO.write", "Server.rest#SEQ", "Server.appe#SEQ", "Server.stor#SEQ"],
         "level": "proof",
         "trusted_base": [T_PY, T_ENGINE, T_SOLVER, T_AIO, T_CONN, "abstract backend file (assumed contract): sequential access after an optional seek; 'wb' truncates, 'ab' appends whatever was seeked, 'r+b' keeps the content; a write at position p pads with zeros beyond the end (pyvc/backend.py:FileHandle)"],
